@@ -251,7 +251,13 @@ class _LikelihoodSum(LikelihoodEnergyOperator):
 
         data_residuals = reduce(add, res)
         super(_LikelihoodSum, self).__init__(data_residuals, sqrt_data_metric_at)
-        self._domain = data_residuals.domain
+        if isinstance(data_residuals.domain, MultiDomain):
+            # The residuals need not depend on all keys of a summand (e.g.
+            # VariableCovarianceGaussianEnergy)
+            from ..sugar import domain_union
+            self._domain = domain_union([oo.domain for oo in ops])
+        else:
+            self._domain = data_residuals.domain
 
     @classmethod
     def unpack(cls, ops, res):
